@@ -31,7 +31,11 @@ import (
 
 const ID = "C04"
 
-const memLimitKB = 2 << 20 // workers run under ulimit -v 2 GiB
+// Workers run under ulimit -v 3 GiB. A Go process reserves about 1.6 GiB of address space before it has
+// allocated anything, so an evaluation has about 1.3 GiB to itself (see retireAbove): several times what the
+// deepest nesting bomb needs, and little enough that an allocation of 2^31 bytes or elements fails at once
+// instead of being zeroed, collected and zeroed again.
+const memLimitKB = 3 << 20
 
 // ---- jobs ----
 
@@ -136,7 +140,82 @@ type result struct {
 	Out        map[string]int64 `json:"out"`
 	Viol       []violRec        `json:"viol"`
 	Sample     string           `json:"sample,omitempty"`
+	Retired    int64            `json:"retired,omitempty"` // times the worker replaced its process image during this job
 }
+
+// merge adds the results of the rest of a job to the part done before the worker replaced itself.
+func (r *result) merge(o result) {
+	r.Inputs += o.Inputs
+	r.NonTrivial += o.NonTrivial
+	r.Evals += o.Evals
+	r.Subsumed += o.Subsumed
+	r.Remeasured += o.Remeasured
+	r.Retired += o.Retired
+	for k, c := range o.Out {
+		r.Out[k] += c
+	}
+	r.Viol = append(r.Viol, o.Viol...)
+	if r.Sample == "" {
+		r.Sample = o.Sample
+	}
+}
+
+// retire replaces the process image of a worker whose address space is used up (see retireAbove) by a fresh
+// one that carries on with the job at evaluation idx: same pid, same pipes, same journal, so the coordinator
+// does not notice. The part of the job already done travels in a file.
+func retire(j job, idx int, part result) {
+	done := result{Out: map[string]int64{}}
+	done.merge(carried) // what earlier images of this worker did of the same job
+	done.merge(part)
+	done.Retired++
+	j.From = idx
+	_, j.To = j.bounds()
+	b, err := json.Marshal(struct {
+		Job  job    `json:"job"`
+		Done result `json:"done"`
+	}{j, done})
+	exe, err2 := os.Executable()
+	if err != nil || err2 != nil || journalPath == "" {
+		return
+	}
+	path := journalPath + ".resume"
+	if os.WriteFile(path, b, 0o600) != nil {
+		return
+	}
+	env := append(os.Environ(), "C04_RESUME="+path, "C04_JOURNAL_PATH="+journalPath)
+	syscall.Exec(exe, os.Args, env) // only returns on failure; then the worker simply carries on
+	os.Remove(path)
+}
+
+// resume finishes the job a previous process image handed over and answers it.
+func resume() {
+	path := os.Getenv("C04_RESUME")
+	if path == "" {
+		return
+	}
+	os.Unsetenv("C04_RESUME")
+	b, err := os.ReadFile(path)
+	os.Remove(path)
+	var st struct {
+		Job  job    `json:"job"`
+		Done result `json:"done"`
+	}
+	if err != nil || json.Unmarshal(b, &st) != nil {
+		fmt.Fprintln(os.Stderr, "C04: cannot resume:", err)
+		os.Exit(9)
+	}
+	if st.Done.Out == nil {
+		st.Done.Out = map[string]int64{}
+	}
+	carried = st.Done
+	rest := runJob(st.Job) // may hand over again
+	carried.merge(rest)
+	out, _ := json.Marshal(carried)
+	carried = result{}
+	os.Stdout.Write(append(out, '\n'))
+}
+
+var carried result
 
 // The journal is 16 bytes of a shared file mapping: the id of the job being served and the index of the
 // evaluation in flight. Plain stores; the page survives the death of the process.
@@ -148,7 +227,14 @@ func openJournal() {
 		dir = filepath.Join(os.TempDir(), "c04-journal")
 	}
 	os.MkdirAll(dir, 0o755)
-	f, err := os.CreateTemp(dir, "journal-*")
+	var f *os.File
+	var err error
+	inherited := os.Getenv("C04_JOURNAL_PATH") // set when this image replaced a retired one: same journal
+	if inherited != "" {
+		f, err = os.OpenFile(inherited, os.O_RDWR, 0)
+	} else {
+		f, err = os.CreateTemp(dir, "journal-*")
+	}
 	if err != nil {
 		return
 	}
@@ -157,9 +243,13 @@ func openJournal() {
 	if err != nil {
 		return
 	}
-	journal = m
-	fmt.Fprintf(os.Stderr, "C04-JOURNAL %s\n", f.Name())
+	journal, journalPath = m, f.Name()
+	if inherited == "" {
+		fmt.Fprintf(os.Stderr, "C04-JOURNAL %s\n", f.Name())
+	}
 }
+
+var journalPath string
 
 var journalRe = regexp.MustCompile(`C04-JOURNAL (\S+)`)
 
@@ -295,6 +385,7 @@ func runJob(j job) result {
 	from, to := j.bounds()
 	mid := (from/n + (to-1)/n) / 2
 	for ii := from / n; ii*n < to; ii++ {
+		handOver := -1
 		input := j.input(ii)
 		c0, c1 := 0, n
 		if ii*n < from {
@@ -302,6 +393,9 @@ func runJob(j job) result {
 		}
 		if (ii+1)*n > to {
 			c1 = to - ii*n
+		}
+		if (stageOf(j.Domain, c0) == 0 || to-from == 1) && mapped() > retireAbove {
+			retire(j, ii*n+c0, res)
 		}
 		if c0 == 0 && !j.NoCount {
 			res.Inputs++
@@ -320,6 +414,12 @@ func runJob(j job) result {
 			st := stageOf(j.Domain, cell)
 			if st == 0 || cell == c0 {
 				spun = false // a range that resumes inside a group resumes after an evaluation that did not spin
+			}
+			if cell > c0 && st == 0 && mapped() > retireAbove {
+				// between two groups of an input: finish the allocation check of the part done, then hand over
+				c1 = cell
+				handOver = ii*n + cell
+				break
 			}
 			if st > 0 && spun {
 				res.Subsumed++ // the reader twin of this (destination, mode) spins: see the assumptions
@@ -362,6 +462,13 @@ func runJob(j job) result {
 					}
 				}
 			}
+		}
+		if handOver >= 0 {
+			retire(j, handOver, res)
+			// still here: the hand-over failed; go on with the rest of this input
+			from = handOver
+			ii--
+			continue
 		}
 		if ii == mid {
 			var ks []string
@@ -670,7 +777,21 @@ func build(thorough bool) spaces {
 	sp.info["io_entry_variants"] = ioVariants
 	sp.info["svc_cells"] = len(services)
 	sp.info["cli_cells"] = len(cliReturn)
+	// the evaluations that can take seconds (CPU budget, deep bombs) go first so that they overlap with the bulk
+	sort.SliceStable(sp.jobs, func(a, b int) bool { return rank(sp.jobs[a]) < rank(sp.jobs[b]) })
 	return sp
+}
+
+func rank(j job) int {
+	switch {
+	case j.Domain != "io" && j.Exact && j.Bomb == "":
+		return 0 // huge counts at the rpc entry points: no reader twin, the CPU budget decides
+	case strings.HasSuffix(j.Bomb, ":100000"):
+		return 1
+	case j.Exact:
+		return 2
+	}
+	return 3
 }
 
 // ---- coordinator ----
@@ -775,7 +896,7 @@ func classify(j job, idx int, f *shard.Failure) violRec {
 	case f.Kind == "timeout":
 		v.Kind, v.Msg, v.Site = "hang-watchdog", f.Exit, "?"
 	case strings.Contains(se, "out of memory") || strings.Contains(se, "cannot allocate memory"):
-		v.Kind, v.Msg, v.Site = "out-of-memory", "the process died under ulimit -v 2 GiB: "+firstLine("runtime: out of memory")+firstLine("runtime: cannot allocate"), iocase.PanicSite(se)
+		v.Kind, v.Msg, v.Site = "out-of-memory", "the process died under ulimit -v 3 GiB: "+firstLine("runtime: out of memory")+firstLine("runtime: cannot allocate"), iocase.PanicSite(se)
 	case strings.Contains(se, "stack overflow") || strings.Contains(se, "stack exceeds"):
 		v.Kind, v.Msg = "stack-overflow", "the process died: "+firstLine("runtime: goroutine stack exceeds")
 	default:
@@ -817,6 +938,7 @@ func main() {
 	if shard.IsWorker() {
 		openJournal()
 		go cpuWatchdog()
+		resume()
 		if f := os.Getenv("C04_CPUPROFILE"); f != "" {
 			w, _ := os.Create(f)
 			pprof.StartCPUProfile(w)
@@ -867,7 +989,7 @@ func main() {
 			}
 		}
 	}
-	var inputs, nontrivial, evals, subsumed, remeasured, deaths, bisections int64
+	var inputs, nontrivial, evals, subsumed, remeasured, deaths, bisections, retired int64
 	inputs, nontrivial = sp.risky, sp.riskyNT
 	out := map[string]int64{}
 	samples := report.NewSamples(16)
@@ -925,9 +1047,18 @@ func main() {
 					a.To = idx
 					pending = append(pending, a)
 				}
-				// the rest: what is left of this input, and the inputs after it in two halves (deaths cluster, and a
-				// chain of them would otherwise be walked one round at a time)
-				cuts := []int{idx + 1, (idx/n + 1) * n, ((idx/n+1)*n + to + n) / 2 / n * n, to}
+				// the rest. Deaths cluster (the variants of one destination, the neighbouring mutants of one stream) and
+				// a chain of them would be walked one round at a time, so the next evaluations of this input go out
+				// one by one, then what is left of the input, then the inputs after it in pieces of eight.
+				cuts := []int{idx + 1}
+				end := (idx/n + 1) * n
+				for k := idx + 2; k <= idx+6 && k < end; k++ {
+					cuts = append(cuts, k)
+				}
+				for c := end; c < to; c += 8 * n {
+					cuts = append(cuts, c)
+				}
+				cuts = append(cuts, to)
 				for k := 0; k+1 < len(cuts); k++ {
 					lo, hi := cuts[k], cuts[k+1]
 					if hi > to {
@@ -956,6 +1087,7 @@ func main() {
 				if r.Sample != "" && nth%(len(cur)/16+1) == 0 {
 					samples.Add(r.Sample)
 				}
+				retired += r.Retired
 			}
 			if stageOne {
 				// second stage of a huge-count evaluation: the in-memory twin, unless the reader twin spins
@@ -1056,6 +1188,7 @@ func main() {
 	run.Set("evaluations_remeasured_exactly_for_allocation", remeasured)
 	run.Set("worker_deaths_convicting_one_evaluation", deaths)
 	run.Set("ranges_bisected_without_journal", bisections)
+	run.Set("worker_retirements", retired)
 	run.Set("rounds", rounds)
 	run.Set("signatures", len(sigs))
 	run.Set("in_memory_twin_confirmations", twin)
@@ -1066,7 +1199,7 @@ func main() {
 	run.Set("space", sp.info)
 	run.Assumption("scope hypothesis: a decoder defect reachable from untrusted bytes shows on a string of at most the stated length over the tag alphabet, on a single-byte edit or a count/length/index replacement of a short valid stream, or on a nesting bomb")
 	run.Assumption("a reader-fed decode that asks for more data more than 100000 + 256 x len times after io.EOF is convicted as an unbounded loop; the in-memory variants of that (input, destination, mode) are then not run (they run the same loop, differ only in loadMore and would each burn the CPU budget; whatever they did would carry the same signature); per signature the in-memory twin of the spinning evaluation with the largest count is run under the CPU budget and its verdict is recorded")
-	run.Assumption("workers run under ulimit -v 2 GiB: an allocation the address space cannot satisfy kills the worker and convicts the one evaluation named by its journal; smaller over-allocations are measured (TotalAlloc delta against 1 MiB + 256 x len)")
+	run.Assumption("workers run under ulimit -v 3 GiB (about 1.6 GiB of it is reserved by the Go runtime at start) and are replaced once they hold more than 128 MiB, so every evaluation has about 1.3 GiB of address space to itself: an allocation that does not fit kills the worker and convicts the one evaluation named by its journal; smaller over-allocations are measured (TotalAlloc delta against 1 MiB + 256 x len)")
 	run.Assumption("time oracle: 3 s of process CPU time per evaluation (plus 10 us per input byte) and a 120 s wall-clock watchdog per job; nothing below that is judged by the clock")
 	run.Assumption("the at= label of a signature (panic site, allocation site, loop) is derived from stacks and the allocation profile; it names the verdict, it does not decide it")
 	run.Finish()
